@@ -3,6 +3,7 @@ import itertools
 import os
 import re
 from vlib import core
+from checks import _c15_api
 
 META = {
     "property_id": "C15",
@@ -142,8 +143,12 @@ def strings_stage(ctx, exe, drv):
     for (op, w, a, b), o in res.items():
         six, raw = o.split(" ")[0], o.split(" ")[1]
         # raw IsLess/IsGreater agree with the operators
-        if raw != six[0] + six[1] + six[2] + six[3]:
+        if raw[:4] != six[0] + six[1] + six[2] + six[3]:
             ctx.fail("raw-vs-operator", "IsLess/IsGreater disagree with the operators on %s %s %s: %s" % (w, a, b, o), {"line": "%s %s %s %s" % (op, w, a, b), "impl_output": o})
+        ua, ub = ([] if a == "e" else a.split(".")), ([] if b == "e" else b.split("."))
+        mn = min(len(ua), len(ub))
+        if len(raw) != 5 or (raw[4] == "1") != (ua[:mn] == ub[:mn]):
+            ctx.fail("raw-isequal", "StringUtils::IsEqual over the common length is wrong on %s %s %s: %s" % (w, a, b, o), {"line": "%s %s %s %s" % (op, w, a, b), "impl_output": o})
         back = res.get((op, w, b, a))
         if back is not None:
             olines.append("ordoraclepair %s %s" % (six, back.split(" ")[0])); meta.append((op, w, a, b))
@@ -359,6 +364,146 @@ def sorts_stage(ctx, exe, drv):
     ctx.count("loop-sort-oracle", len(olines), len(set(olines)))
 
 
+# ------------------------------------------------------------------------------------------------
+def patterns(n, rng):
+    """Adversarial key patterns of length n (lists of ranks; equal rank = equivalent elements)."""
+    m = n // 2
+    srt = list(range(n))
+    out = {
+        "sorted": srt, "reversed": srt[::-1], "all-equal": [5] * n,
+        "two-alternating": [i % 2 for i in range(n)], "two-blocks-01": [0] * m + [1] * (n - m), "two-blocks-10": [1] * m + [0] * (n - m),
+        "organ-pipe": [min(i, n - 1 - i) for i in range(n)], "valley": [max(i, n - 1 - i) for i in range(n)],
+        "sawtooth": [i % 4 for i in range(n)], "random-perm": rng.sample(srt, n), "random-3": [rng.randrange(3) for _ in range(n)],
+    }
+    if n >= 3:
+        d = list(srt); d[0] = d[m] = d[n - 1] = m; out["dup-first-mid-last"] = d          # duplicates at the pivot candidates
+        d = list(srt); d[0] = n; out["first-is-max"] = d
+        d = list(srt); d[0] = d[1] = 0; d[n - 1] = d[n - 2]; out["dup-at-both-ends"] = d
+        d = srt[::-1]; d[m] = d[0]; out["reversed-dup-first-mid"] = d
+        d = srt[m:] + srt[:m]; out["rotated"] = d
+    return out
+
+
+def patterns_stage(ctx, exe, drv):
+    """Every length 0..40 and lengths around 64/128/256, adversarial patterns, both directions, through every
+    container kind: thresholds of any small-sort / pivot-selection scheme in Memory::Sort sit inside this range."""
+    rng = ctx.rng
+    lines = []
+    longs = [63, 64, 65, 127, 128, 129, 255, 256, 257] if ctx.thorough else [64, 65, 129, 256]
+    for n in list(range(0, 41)) + longs:
+        for name, ranks in patterns(n, rng).items():
+            for asc in "10":
+                nat = ",".join("n%d" % r for r in ranks) if ranks else "-"
+                strs = ",".join(stok([48 + r // 100, 48 + r // 10 % 10, 48 + r % 10]) for r in ranks) if ranks else "-"
+                lines.append("%s %s %s" % ("ordsortv" if n % 2 else "ordsorta", asc, nat))
+                lines.append("ordsortn %s r %s" % (asc, ",".join("r%016x" % (0x4000000000000000 + (r << 40)) for r in ranks) if ranks else "-"))
+                if n <= 40:
+                    lines.append("ordsortv %s %s" % (asc, ",".join("a%dx%d" % (r + 1, i) for i, r in enumerate(ranks)) if ranks else "-"))
+                    lines.append("ordsorts %s %s %s" % (asc, "124"[n % 3], strs))
+                    lines.append("ordsortw %s %s %s" % (asc, "142"[n % 3], strs))
+                    lines.append("ordsortn %s i %s" % (asc, ",".join("i%d" % (r - 7) for r in ranks) if ranks else "-"))
+                    if n >= 2:
+                        s0, e0 = rng.randrange(0, n), 0
+                        e0 = rng.randrange(s0, n + 1)
+                        lines.append("%s %s %d %d %s" % ("ordsortseg" if n % 2 else "ordsortseg64", asc, s0, e0, nat))
+                elif name in ("sorted", "reversed", "organ-pipe", "all-equal", "random-perm", "dup-first-mid-last"):
+                    lines.append("ordsorts %s 1 %s" % (asc, strs))
+                # hash arrays: keys are unique, so permutation patterns only; removed members give the duplicates
+                if len(set(ranks)) == n and n >= 1 and (n <= 40 or name in ("sorted", "reversed")):
+                    ops = ["+%s=%d" % (stok([48 + r // 100, 48 + r // 10 % 10, 48 + r % 10]), 0 if n % 3 == 2 else i) for i, r in enumerate(ranks)]
+                    op = ["ordsorth", "ordsorto", "ordsortl"][n % 3]
+                    lines.append("%s %s %s" % (op, asc, ",".join(ops)))
+                    if n >= 3:
+                        rm = ["!" + ops[k].split("=")[0][1:] for k in (0, n // 2, n - 1)]
+                        lines.append("%s %s %s" % (op, asc, ",".join(ops + rm)))
+    impl, model = run_both(ctx, exe, drv, "sort-length-patterns", lines, nontrivial=lambda l: "," in l)
+    sort_oracles(ctx, drv, "sort-length-patterns-oracle", lines, impl)
+
+
+def sort_oracles(ctx, drv, stream, lines, impl):
+    """Ordered-permutation oracle (implementation's own comparison tables) for any of the sort ops."""
+    olines, meta = [], []
+    for l, o in zip(lines, impl):
+        if o.startswith("FAULT") or o == "bad-op":
+            if o == "bad-op":
+                ctx.fail("sort-op-rejected", "harness rejected %s" % l, {"line": l})
+            continue
+        t, r = l.split(" "), o.split(" ")
+        op = t[0]
+        if op in ("ordsorto", "ordsorth", "ordsortl"):
+            if len(r) != 5:
+                ctx.fail("object-sort-output", "unexpected harness output %s for %s" % (o, l), {"line": l}); continue
+            if r[4] != "lookups-ok":
+                ctx.fail("lookup-after-sort", "after Sort a lookup by key is wrong (%s): %s" % (r[4], l), {"line": l, "impl_output": o})
+            if "~dirty" in o:
+                ctx.fail("removed-slot-not-cleared", "a removed slot still holds a key/value: %s -> %s" % (l, o), {"line": l, "impl_output": o})
+            olines.append("ordoraclesort %s %s %s %s" % (r[0], r[1], r[2], r[3])); meta.append(l)
+        elif op in ("ordsortseg", "ordsortseg64"):
+            s0, e0 = int(t[2]), int(t[3])
+            inp = [] if t[4] == "-" else t[4].split(",")
+            out = [] if r[0] == "-" else r[0].split(",")
+            if len(out) != len(inp) or out[:s0] != inp[:s0] or out[e0:] != inp[e0:]:
+                ctx.fail("sort:outside-segment-changed", "Memory::Sort(arr,%d,%d) touched elements outside the segment: %s -> %s" % (s0, e0, l, r[0]), {"line": l, "impl_output": o})
+            olines.append("ordoraclesort %s %s %s %s" % (",".join(inp[s0:e0]) or "-", ",".join(out[s0:e0]) or "-", r[1], r[2])); meta.append(l)
+        else:
+            olines.append("ordoraclesort %s %s" % (t[-1], o)); meta.append(l)
+    for v, l, ol in zip(oracle(ctx, drv, olines), meta, olines):
+        if v != "ok":
+            toks = [] if l.split(" ")[-1] == "-" else l.split(" ")[-1].split(",")
+            key = (v in ("not-ordered", "not-a-chain") and known_class(toks)) or ("sort:" + v)
+            ctx.fail(key, "Sort result is '%s' (by the implementation's own comparisons): %s -> %s" % (v, l, ol.split(" ")[2][:400]), {"line": l, "impl_output": ol.split(" ")[2]})
+    ctx.count(stream, len(olines), len(set(olines)))
+
+
+def forms_stage(ctx, exe, drv):
+    """The remaining public forms: Memory::Sort on a segment with both index types, Array<StringView> over one buffer,
+    Array<number>, HList."""
+    rng = ctx.rng
+    T = ctx.thorough
+    lines = []
+    alpha = ["n1", "n2", "a1x1", "a1x2"]
+    for n in range(0, 5 if not T else 6):
+        for t in itertools.product(alpha[: 3 if n >= 5 else 4], repeat=n):
+            for s0 in range(0, n + 1):
+                for e0 in range(s0, n + 1):
+                    if (s0, e0) != (0, n) and rng.random() < (0.5 if n >= 4 else 0.0):
+                        continue
+                    lines.append("%s %s %d %d %s" % ("ordsortseg" if (s0 + e0) % 2 else "ordsortseg64", "10"[(s0 + n) % 2], s0, e0, ",".join(t) if t else "-"))
+    clean = [z for z in ZOO if known_class([z]) is None]
+    for _ in range(400 if not T else 8000):
+        n = rng.randrange(0, 40)
+        arr = [rng.choice(clean) for _ in range(n)]
+        s0 = rng.randrange(0, n + 1); e0 = rng.randrange(s0, n + 1)
+        lines.append("%s %s %d %d %s" % (rng.choice(["ordsortseg", "ordsortseg64"]), rng.choice("01"), s0, e0, ",".join(arr) if arr else "-"))
+    for n in range(0, 6 if not T else 7):
+        for t in itertools.product(["e", "97", "97.98"], repeat=n):
+            lines.append("ordsortw %s %s %s" % ("10"[n % 2], "124"[len(set(t)) % 3], ",".join(t) if t else "-"))
+    nums = {"n": ["n0", "n1", "n2", "n18446744073709551615", "n9223372036854775808"],
+            "i": ["i0", "i-1", "i1", "i9223372036854775807", "i-9223372036854775808"],
+            "r": [z for z in ZOO if z[0] == "r" and not is_nan(z)]}
+    for _ in range(600 if not T else 12000):
+        k = rng.choice("nir")
+        arr = [rng.choice(nums[k]) if rng.random() < 0.6 else {"n": "n%d", "i": "i%d", "r": "r%016x"}[k] % (rng.randrange(0, 2 ** 62) if k != "i" else rng.randrange(-2 ** 62, 2 ** 62)) for _ in range(rng.randrange(0, 30))]
+        arr = [a for a in arr if not is_nan(a)]
+        lines.append("ordsortn %s %s %s" % (rng.choice("01"), k, ",".join(arr) if arr else "-"))
+    keys = ["e", "97", "97.98", "97.98.99", "98", "97.97", "65", "122.122"]
+    for n in range(0, 4 if not T else 5):
+        for t in itertools.product(["+97=0", "+97.98=0", "+98=0", "!97", "!97.98", "+e=0"], repeat=n):
+            lines.append("ordsortl %s %s" % ("10"[n % 2], ",".join(t) if t else "-"))
+    for _ in range(800 if not T else 20000):
+        ks = keys if rng.random() < 0.5 else [stok([rng.choice([97, 98, 99]) for _ in range(rng.randrange(0, 4))]) for _ in range(rng.randrange(1, 40))]
+        ops = [re.sub(r"=\d+$", "=0", o) for o in gen_ops(rng, ks, rng.randrange(0, 48))]
+        lines.append("ordsortl %s %s" % (rng.choice("01"), ",".join(ops) if ops else "-"))
+    impl, model = run_both(ctx, exe, drv, "remaining-sort-forms", lines, nontrivial=lambda l: "," in l)
+    sort_oracles(ctx, drv, "remaining-sort-forms-oracle", lines, impl)
+
+
+def api_stage(ctx):
+    rows, unc = _c15_api.audit()
+    ctx.notes.append("API audit (checks/_c15_api.py): %d public comparison/sort entry points, not driven: %s" % (len(rows), unc or "none"))
+    ctx.count("api-audit", len(rows), len(rows))
+
+
 def depth_stage(ctx, exe):
     """Observation on the real code only: recursion depth n of Memory::Sort on sorted input (not modelled)."""
     n = 4000 if not ctx.thorough else 30000
@@ -409,7 +554,10 @@ def run(ctx):
     strings_stage(ctx, exe, drv)
     values_stage(ctx, exe, drv)
     sorts_stage(ctx, exe, drv)
+    forms_stage(ctx, exe, drv)
+    patterns_stage(ctx, exe, drv)
     depth_stage(ctx, exe)
+    api_stage(ctx)
     ctx.assumptions += [
         "code units modelled as Nat; for the signed `char` build a unit u is ordered as (u+128) mod 256 (stream ordstrs)",
         "a double is modelled by the monotone integer key of its IEEE-754 bit pattern (NaN = none); tied by the value zoo (±0, denormals, extremes, ±inf, NaN)",
